@@ -76,7 +76,7 @@ def from_description(d):
 
 
 def input_class(case):
-    return f"{case['kind']},{case['engine']},{'over' if case['K'] > LIMIT else 'under'}"
+    return f"{case['kind']},{case['engine']},{'over' if case['K'] > LIMIT else 'under'},{case['kind']}@{'start' if case['at_start'] else 'event'}"
 
 
 def _logic(K):
